@@ -73,6 +73,30 @@ def directed_state(rng):
     return ops, kind
 
 
+def split_case(rng):
+    """one input of the DistributedPhotonSource constructor: N packets, normalised weights
+    (1:2:4, equal, random; 1 to 60 sources), 1-4 subgrid copies per source; most leave leftovers"""
+    kind = rng.choice(["124", "124", "equal", "random", "random", "many", "single"])
+    if kind == "124":
+        a = [1.0, 2.0, 4.0][:rng.choice([2, 3])]
+    elif kind == "equal":
+        a = [1.0] * rng.randint(2, 9)
+    elif kind == "random":
+        a = [rng.random() + 0.05 for _ in range(rng.randint(2, 8))]
+    elif kind == "many":
+        a = [rng.random() + 0.05 for _ in range(rng.randint(20, 60))]
+    else:
+        a = [1.0]
+    tot = sum(a)
+    w = [x / tot for x in a]
+    N = rng.choice([7, 10, 100, 1000, 12345, 10 ** 6, rng.randint(len(a) * 4, 10 ** 5)])
+    N = max(N, 8 * len(a))
+    if sum(int(float(N) * x) for x in w) > N:
+        return None
+    cop = [rng.choice([1, 1, 1, 2, 3, 4]) for _ in a]
+    return "split %d " % N + " ".join("%d:%d" % (vlib.f2bits(x), c) for x, c in zip(w, cop))
+
+
 def run(ctx):
     _run_generator(ctx)
     snapshot_repro(ctx)
@@ -109,6 +133,15 @@ def _run_generator(ctx):
     for _ in range(nstates):
         o, kind = directed_state(rng)
         ops += o
+    # the consumer of a locally constructed generator: photon packet split, constructed three
+    # times per line in the harness process (the split must not depend on earlier constructions)
+    nsplit = ctx.budget(300, 20000)
+    k = 0
+    while k < nsplit:
+        o = split_case(rng)
+        if o:
+            ops.append(o)
+            k += 1
     # different seeds -> different streams (oracle on the implementation, answer compared too)
     npairs = ctx.budget(300, 20000)
     pairs = [(1, 2), (0, 2), (M31 - 1, 1), (M31 - 1, M31 - 2), (42, 43), (1, M31 // 2), (1, 1 + 2 ** 30)]
@@ -126,7 +159,7 @@ def _run_generator(ctx):
         return 1
     n, impl, model, orc = ctx.correspond("ranlux", h, vlib.driver("drv_c13"), ops,
                                          cmp=lambda a, b, op: a == vlib.strip_branch(b),
-                                         group_start=lambda op: op.startswith("seed") or op.startswith("state"))
+                                         group_start=lambda op: op.split()[0] in ("seed", "state", "split", "differ"))
     draws = 0
     exact = 0
     seed = None
@@ -166,6 +199,9 @@ def _run_generator(ctx):
             if len(st) >= 18:
                 ctx.branch("restore")
                 pos[(st[14], st[16])] = pos.get((st[14], st[16]), 0) + 1
+        elif op.startswith("split"):
+            ctx.branch(ml.split(" #")[1] if " #" in ml else "split")
+            ctx.distinct(op)
         elif op.startswith("differ"):
             ctx.branch("differ-first-%s" % ml.split()[1])
             ctx.distinct(op)
@@ -176,7 +212,7 @@ def _run_generator(ctx):
     ctx.cov["tolerance"] = "none (64 bit patterns identical)"
     ctx.cov["restore_positions_(ir,ir_old)_covered"] = "%d/144" % len(pos)
     ctx.cov["seeds"] = seeds
-    need = ["plain"] + ["refill-ir%d" % i for i in range(12)] + ["restore", "seed", "differ-first-0", "directed-state", "output-zero", "output-max"]
+    need = ["plain"] + ["refill-ir%d" % i for i in range(12)] + ["restore", "seed", "differ-first-0", "directed-state", "output-zero", "output-max", "split-leftover", "split-no-leftover"]
     missing = [b for b in need if b not in ctx.cov["branch_histogram"]]
     if len(pos) < 144:
         missing.append("restore at %d (ir, ir_old) pairs" % (144 - len(pos)))
@@ -273,6 +309,6 @@ def replay(ctx, path):
 
 MANIFEST = dict(
     category="proof",
-    text="Lean theorems about an integer model (units of 2^-48) of RandomGenerator.hpp, for every seed, every stream position and every save/restore point: the unrolled refill (three loops, 11-fold unrolled block) is 397 single steps of the textbook subtract-with-borrow recurrence (unrolled_refines_single) and the delivered stream is RANLUX with luxury 397 of the seed words (stream_is_spec); every reachable state has entries in [0,2^48) and carry in {0,1}, so every output lies in [0,1) (state_bounded, next_lt_one); all double operations are exact for every rounding that is exact below 2^49 (doubles_exact); seed 0 = seed 1; seeding injective on [1,2^31) through the first 31 generated bits (seed_injective); restore(dump s) = s and the stream continues identically; different effective seeds give streams that differ within the first 24 draws (streams_differ, via the linear-congruential form of the recurrence modulo b^12-b^5+1, b^397 not congruent to +-1, and the shift-register structure of the seed words). Honest negatives, also proved: the single step is NOT injective on raw states (injective once the incoming carry is known), and exactly 0 is not excluded by the invariant (an all-zero state returns 0 forever), so -log(u) can be +inf in principle but never <= 0. Model tied to the code by bit-exact differential runs (draws, states, restart round trips through the real RestartWriter/RestartReader) plus the property oracle on the implementation.",
+    text="Lean theorems about an integer model (units of 2^-48) of RandomGenerator.hpp, for every seed, every stream position and every save/restore point: the unrolled refill (three loops, 11-fold unrolled block) is 397 single steps of the textbook subtract-with-borrow recurrence (unrolled_refines_single) and the delivered stream is RANLUX with luxury 397 of the seed words (stream_is_spec); every reachable state has entries in [0,2^48) and carry in {0,1}, so every output lies in [0,1) (state_bounded, next_lt_one); all double operations are exact for every rounding that is exact below 2^49 (doubles_exact); seed 0 = seed 1; seeding injective on [1,2^31) through the first 31 generated bits (seed_injective); restore(dump s) = s and the stream continues identically; different effective seeds give streams that differ within the first 24 draws (streams_differ, via the linear-congruential form of the recurrence modulo b^12-b^5+1, b^397 not congruent to +-1, and the shift-register structure of the seed words). The consumer of a locally constructed generator, the photon packet split of DistributedPhotonSource, is modelled too: it sums to N and is a function of (N, quotas, copies) and of the stream of a default-seeded generator read from position 0 in every construction (split_sum, split_fresh_generator); the harness constructs the real class three times per input in one process and requires identical splits equal to the model's. Honest negatives, also proved: the single step is NOT injective on raw states (injective once the incoming carry is known), and exactly 0 is not excluded by the invariant (an all-zero state returns 0 forever), so -log(u) can be +inf in principle but never <= 0. Model tied to the code by bit-exact differential runs (draws, states, restart round trips through the real RestartWriter/RestartReader) plus the property oracle on the implementation.",
     note="Trusted: Lean kernel + 3 standard axioms; hand model of RandomGenerator.hpp; IEEE exactness of integer-valued double sums below 2^53; 64-bit int_fast32_t/uint_fast32_t. Not a theorem: byte-identical snapshots of two real single-thread runs (depends on everything outside the generator; run separately as a replayable experiment). Not decided: whether a seeded stream ever returns exactly 0.",
     technique="Lean 4 proof (state invariants, induction over the step count, linear-congruential representation of subtract-with-borrow) + exact differential correspondence")
